@@ -1,4 +1,384 @@
-(* Props/C10.v — placeholder while the harness is brought up; theorems follow. *)
-From Eino Require Import Base.Util Base.GoSlice Model.Callbacks.
-Example c10_model_runs : st_bad (run_script true {| w_pol := pol_double; w_globals := []; w_needs := fun _ _ => true |} [OAppend None 0%N 0%N [[1%N]]; OOn 0%N TStart]) = false.
+(* Props/C10.v — property C10: callback handlers fire exactly once per execution unit, start
+   paired with end-or-error, for the right node, with that node's run info; designated
+   handlers only there; stream payload copies independent.
+   Only statements, each closed by [exact]; non-vacuity Examples; [_refuted] witnesses for the
+   code as it was before the repair of F-C10 (8b69b91). *)
+From Coq Require Import List Arith NArith Bool.
+From Eino Require Import Base.Util Base.GoSlice Model.Callbacks Model.CallbacksStream Model.CallbacksSched.
+From Eino Require Import Proofs.CallbacksSlice Proofs.Callbacks Proofs.CallbacksEngine Proofs.CallbacksStream
+  Proofs.CallbacksSched.
+Import ListNotations.
+Local Open Scope N_scope.
+
+(* ------------------------------------------------------------------ slices: Go's append *)
+
+(* Go's append on a well-formed slice reads  old ++ xs  and stays well formed, for every
+   growth policy (every Go version's growslice). *)
+Theorem go_append_spec :
+  forall (pol : policy) (h : heap) (s : slice) (xs : list elem),
+    wf h s ->
+    read (fst (append pol h s xs)) (snd (append pol h s xs)) = read h s ++ xs /\
+    wf (fst (append pol h s xs)) (snd (append pol h s xs)).
+Proof. exact append_spec. Qed.
+Print Assumptions go_append_spec.
+
+Example go_append_spec_nonvacuous_in_place :
+  let hs := alloc_slice [] 1 [1; 2; 3] 2 in
+  wfb (fst hs) (snd hs) = true /\
+  append pol_double (fst hs) (snd hs) [7] =
+    ([[0; 1; 2; 3; 7; 0]], {| arr := 0; off := 1; len := 4; cap := 5 |}).
+Proof. vm_compute. split; reflexivity. Qed.
+
+Example go_append_spec_nonvacuous_realloc :
+  let hs := alloc_slice [] 1 [1; 2; 3] 0 in
+  append pol_double (fst hs) (snd hs) [7] =
+    ([[0; 1; 2; 3]; [1; 2; 3; 7; 0; 0]], {| arr := 1; off := 0; len := 4; cap := 6 |}).
 Proof. vm_compute. reflexivity. Qed.
+
+(* ------------------------------------------------------------------ refinement *)
+
+(* The heap-level model of the repaired manager code (slice headers into shared arrays, Go's
+   append, every growth policy, every capacity and offset) and the pure list specification
+   ("inherited ++ designated") agree on every script of operations: same flag, same event
+   log, related contexts. *)
+Theorem script_refines_spec :
+  forall (w : world) (ops : list op), R w (run_script true w ops) (run_spec w ops).
+Proof. exact Proofs.Callbacks.script_refines_spec. Qed.
+Print Assumptions script_refines_spec.
+
+(* ------------------------------------------------------------------ handler_lists_immutable *)
+
+(* For every growth policy / global handler list / timing table [w], every prefix [pre] of
+   operations (managers created with any offset, length and spare capacity; AppendHandlers
+   through initGraphCallbacks / initNodeCallbacks; ReuseHandlers; On with every timing) by any
+   units in any order, a unit [u] created by AppendHandlers from [parent] with the designated
+   option lists [opts], and every suffix [post] of operations by any units in any order that
+   does not give u's name to a new unit: the handler list u observes afterwards is
+   inherited ++ designated as computed at its creation. *)
+Theorem handler_lists_immutable :
+  forall (w : world) (pre : list op) (parent : option ukey) (u : ukey) (inf : info)
+         (opts : list (list handler)) (post : list op) (inh : list handler),
+    inherited_list (run_script true w pre) parent = Some inh ->
+    no_rebind u post ->
+    observed_list (run_script true w (pre ++ OAppend parent u inf opts :: post)) u
+    = Some (inh ++ List.concat opts).
+Proof. exact handler_lists_immutable_proof. Qed.
+Print Assumptions handler_lists_immutable.
+
+Definition w_plain (globals : list handler) : world :=
+  {| w_pol := pol_double; w_globals := globals; w_needs := fun _ _ => true |}.
+
+(* the scenario of F-C10: parent list [1;2;3] with one spare slot, two siblings *)
+Definition fc10_pre : list op := [ORaw 0 100 0%nat [1; 2; 3] 1%nat; OAppend (Some 0) 1 101 [[4]]].
+Definition fc10_post : list op := [OAppend (Some 0) 2 102 [[5]]; OOn 0 TEnd; OOn 2 TStart; OOn 1 TEnd].
+
+Example handler_lists_immutable_nonvacuous :
+  inherited_list (run_script true (w_plain [9]) [ORaw 0 100 0%nat [1; 2; 3] 1%nat]) (Some 0) = Some [1; 2; 3] /\
+  (forall o, In o fc10_post -> creates o <> Some 1) /\
+  observed_list (run_script true (w_plain [9]) (fc10_pre ++ fc10_post)) 1 = Some [1; 2; 3; 4] /\
+  observed_list (run_script true (w_plain [9]) (fc10_pre ++ fc10_post)) 2 = Some [1; 2; 3; 5].
+Proof.
+  split; [vm_compute; reflexivity|]. split.
+  - intros o [<-|[<-|[<-|[<-|[]]]]]; discriminate.
+  - split; vm_compute; reflexivity.
+Qed.
+
+(* The code as it was (AppendHandlers = append(cbm.handlers, hs...)): the sibling's append
+   lands in the shared spare slot and unit 1 afterwards observes the handler designated to
+   unit 2. *)
+Theorem handler_lists_immutable_v0_refuted :
+  exists (w : world) (pre : list op) (parent : option ukey) (u : ukey) (inf : info)
+         (opts : list (list handler)) (post : list op) (inh : list handler),
+    inherited_list (run_script false w pre) parent = Some inh /\
+    no_rebind u post /\
+    observed_list (run_script false w (pre ++ OAppend parent u inf opts :: post)) u
+    = Some [1; 2; 3; 5] /\
+    inh ++ List.concat opts = [1; 2; 3; 4].
+Proof.
+  exists (w_plain []), [ORaw 0 100 0%nat [1; 2; 3] 1%nat], (Some 0), 1, 101, [[4]],
+         [OAppend (Some 0) 2 102 [[5]]], [1; 2; 3].
+  split; [vm_compute; reflexivity|]. split.
+  - intros o [<-|[]]; discriminate.
+  - split; vm_compute; reflexivity.
+Qed.
+Print Assumptions handler_lists_immutable_v0_refuted.
+
+(* The same for On as it was (append(mgr.handlers, mgr.globalHandlers...) for the iteration):
+   the parent's own On writes the global handler over the child's designated handler. *)
+Theorem handler_lists_immutable_on_v0_refuted :
+  exists (w : world) (pre : list op) (parent : option ukey) (u : ukey) (inf : info)
+         (opts : list (list handler)) (post : list op) (inh : list handler),
+    inherited_list (run_script false w pre) parent = Some inh /\
+    no_rebind u post /\
+    (forall o, In o post -> exists v t, o = OOn v t) /\
+    observed_list (run_script false w (pre ++ OAppend parent u inf opts :: post)) u
+    = Some [1; 2; 3; 9] /\
+    inh ++ List.concat opts = [1; 2; 3; 4].
+Proof.
+  exists (w_plain [9]), [ORaw 0 100 0%nat [1; 2; 3] 1%nat], (Some 0), 1, 101, [[4]],
+         [OOn 0 TEnd], [1; 2; 3].
+  split; [vm_compute; reflexivity|]. split.
+  - intros o [<-|[]]; discriminate.
+  - split; [intros o [<-|[]]; eauto|]. split; vm_compute; reflexivity.
+Qed.
+Print Assumptions handler_lists_immutable_on_v0_refuted.
+
+(* ------------------------------------------------------------------ designated_only_there *)
+
+(* A handler that is neither global, nor in the list the unit inherits, nor designated to the
+   unit is never invoked for it — whoever else it is designated to, whatever the other units
+   do before and after, in any order, with any slice capacities and growth policy. *)
+Theorem designated_only_there :
+  forall (w : world) (pre : list op) (parent : option ukey) (u : ukey) (inf : info)
+         (opts : list (list handler)) (post : list op) (inh : list handler) (x : handler),
+    inherited_list (run_script true w pre) parent = Some inh ->
+    (forall o, In o pre -> creates o <> Some u) ->
+    no_rebind u post ->
+    ~ In x inh -> ~ In x (List.concat opts) -> ~ In x (w_globals w) ->
+    forall e, In e (st_log (run_script true w (pre ++ OAppend parent u inf opts :: post))) ->
+              ev_unit e = u -> ev_handler e <> x.
+Proof. exact designated_only_there_proof. Qed.
+Print Assumptions designated_only_there.
+
+Example designated_only_there_nonvacuous :
+  let log := st_log (run_script true (w_plain [9]) (fc10_pre ++ fc10_post)) in
+  (* handler 5 is designated to unit 2 only, and it is invoked — for unit 2 only *)
+  filter (fun e => N.eqb (ev_handler e) 5) log = [Ev 2 5 TStart 102] /\
+  filter (of_unit 1) log = [Ev 1 1 TEnd 101; Ev 1 2 TEnd 101; Ev 1 3 TEnd 101; Ev 1 4 TEnd 101; Ev 1 9 TEnd 101].
+Proof. vm_compute. split; reflexivity. Qed.
+
+(* As it was: the handler designated to unit 2 receives the end of unit 1. *)
+Theorem designated_only_there_v0_refuted :
+  exists (w : world) (pre : list op) (parent : option ukey) (u : ukey) (inf : info)
+         (opts : list (list handler)) (post : list op) (inh : list handler) (x : handler),
+    inherited_list (run_script false w pre) parent = Some inh /\
+    (forall o, In o pre -> creates o <> Some u) /\
+    no_rebind u post /\
+    ~ In x inh /\ ~ In x (List.concat opts) /\ ~ In x (w_globals w) /\
+    exists e, In e (st_log (run_script false w (pre ++ OAppend parent u inf opts :: post))) /\
+              ev_unit e = u /\ ev_handler e = x.
+Proof.
+  exists (w_plain []), [ORaw 0 100 0%nat [1; 2; 3] 1%nat], (Some 0), 1, 101, [[4]],
+         [OAppend (Some 0) 2 102 [[5]]; OOn 1 TEnd], [1; 2; 3], 5.
+  split; [vm_compute; reflexivity|].
+  split; [intros o [<-|[]]; discriminate|].
+  split; [intros o [<-|[<-|[]]]; discriminate|].
+  split; [simpl; intros [H|[H|[H|[]]]]; discriminate|].
+  split; [simpl; intros [H|[]]; discriminate|].
+  split; [simpl; tauto|].
+  exists (Ev 1 5 TEnd 101). split; [vm_compute; tauto|]. split; reflexivity.
+Qed.
+Print Assumptions designated_only_there_v0_refuted.
+
+(* ------------------------------------------------------------------ exactly_once_paired: one graph *)
+
+(* A graph unit g (its context created by any earlier operations [pre], with any slice
+   capacities) and n parallel node units, in EVERY interleaving [body] of the nodes' programs
+   (initNodeCallbacks; On start; On end-or-error): the events of every node unit are exactly
+   its start events followed by exactly its end events, one per attachment of a handler that
+   asks for the timing (graph list ++ designated ++ global), carrying the node's run info. *)
+Theorem exactly_once_paired_flat :
+  forall (w : world) (pre : list op) (g : ukey) (Lg : list handler) (nodes : list fnode)
+         (body : list op) (sg eg : timing),
+    observed_list (run_script true w pre) g = Some Lg ->
+    NoDup (map fn_key nodes) ->
+    ~ In g (map fn_key nodes) ->
+    (forall n o, In n nodes -> In o pre -> mentions (fn_key n) o = false) ->
+    Interleave (map (fprog g) nodes) body ->
+    forall n, In n nodes ->
+      filter (of_unit (fn_key n)) (flat_log w pre g body sg eg) =
+        served w (fn_key n) (fn_info n) (Lg ++ List.concat (fn_opts n)) (fn_start n) ++
+        served w (fn_key n) (fn_info n) (Lg ++ List.concat (fn_opts n)) (fn_end n).
+Proof. exact node_events. Qed.
+Print Assumptions exactly_once_paired_flat.
+
+(* ------------------------------------------------------------------ exactly_once_paired: the engine *)
+
+(* The run of a compiled (nested, layered) graph as a program tree: the graph's callbacks
+   context, On start, then stage after stage all nodes of the stage IN PARALLEL (each node:
+   initNodeCallbacks, then On start / On end-or-error around the body, or recursively the run
+   of a sub graph), a failing node or a rejected designation ending the run with On error.
+   [traces p t]: t is a schedule of p (any interleaving of parallel branches, at every
+   nesting level).  The canonical operation list that Corr/C10.v evaluates is one of them: *)
+Theorem canonical_order_is_a_schedule :
+  forall is_stream g ginf opts stages,
+    flatten (graph_prog is_stream g ginf opts stages) = graph_ops is_stream g ginf opts stages /\
+    traces (graph_prog is_stream g ginf opts stages) (graph_ops is_stream g ginf opts stages).
+Proof. intros. split; [apply flatten_graph_prog | apply graph_ops_is_a_schedule]. Qed.
+Print Assumptions canonical_order_is_a_schedule.
+
+(* For every world (growth policy, global handlers, timing table), paradigm, graph (any
+   nesting, any stage widths, failing nodes, passthrough nodes, any native paradigms of the
+   lambdas), any call options (handlers for the whole graph, designated to nodes and to node
+   paths, valid or not) and EVERY schedule t: for every unit of the closed-form table
+   [graph_table] (the units that execute; handler list = inherited ++ designated, top down),
+   the events of that unit in the log are exactly the expected ones: for each of its timings
+   (start; then end / stream end / error) the handlers of list ++ globals that ask for the
+   timing, one event per attachment, start timings in reverse order, all with the unit's
+   run info. *)
+Theorem exactly_once_paired_units :
+  forall w is_stream g ginf opts stages t,
+    NoDup (g :: stages_uids stages) ->
+    traces (graph_prog is_stream g ginf opts stages) t ->
+    forall e, In e (graph_table is_stream g ginf opts stages) ->
+      filter (of_unit (ue_unit e)) (st_log (run_script true w t)) = uexp_events w e.
+Proof. exact engine_unit_logs. Qed.
+Print Assumptions exactly_once_paired_units.
+
+(* ... and nothing else fires: every event of every schedule belongs to a unit of the table
+   and is one of that unit's expected events (so a unit that does not execute — a stage after
+   a failing one, anything below a rejected designation — has no events). *)
+Theorem no_other_events :
+  forall w is_stream g ginf opts stages t,
+    NoDup (g :: stages_uids stages) ->
+    traces (graph_prog is_stream g ginf opts stages) t ->
+    forall ev, In ev (st_log (run_script true w t)) ->
+      exists e, In e (graph_table is_stream g ginf opts stages) /\ ev_unit ev = ue_unit e /\
+                In ev (uexp_events w e).
+Proof. exact engine_no_other_events. Qed.
+Print Assumptions no_other_events.
+
+(* The counting form.  A served unit has timings [s; f] (s a start timing, f an end / stream
+   end / error timing, see [table_timings]); for every handler x and timing tm, the number of
+   invocations of x for the unit with timing tm and the unit's run info is the number of
+   times x is attached to the unit if tm is s or f and x asks for it, otherwise zero.  In
+   particular a handler without TimingChecker attached once is invoked exactly once at the
+   start and exactly once at the end-or-error. *)
+Theorem exactly_once_paired :
+  forall w is_stream g ginf opts stages t,
+    NoDup (g :: stages_uids stages) ->
+    traces (graph_prog is_stream g ginf opts stages) t ->
+    forall e, In e (graph_table is_stream g ginf opts stages) ->
+    forall s f, ue_timings e = [s; f] ->
+    forall x tm,
+      List.length (filter (is_ev (ue_unit e) x tm (ue_info e)) (st_log (run_script true w t))) =
+      if (timing_eqb tm s || timing_eqb tm f) && w_needs w x tm
+      then count_occ N.eq_dec (ue_list e ++ w_globals w) x else 0%nat.
+Proof. exact engine_exactly_once_paired. Qed.
+Print Assumptions exactly_once_paired.
+
+Theorem table_timings :
+  forall is_stream g ginf opts stages e,
+    In e (graph_table is_stream g ginf opts stages) ->
+    ue_timings e = [] \/
+    exists s f, ue_timings e = [s; f] /\ is_start s = true /\ is_start f = false.
+Proof. exact graph_table_timings. Qed.
+Print Assumptions table_timings.
+
+(* a passthrough node gets a callbacks context but is never served *)
+Theorem unserved_unit_silent :
+  forall w is_stream g ginf opts stages t,
+    NoDup (g :: stages_uids stages) ->
+    traces (graph_prog is_stream g ginf opts stages) t ->
+    forall e, In e (graph_table is_stream g ginf opts stages) -> ue_timings e = [] ->
+      filter (of_unit (ue_unit e)) (st_log (run_script true w t)) = [].
+Proof. exact engine_unserved_silent. Qed.
+Print Assumptions unserved_unit_silent.
+
+(* what the correspondence check compares (per unit / per handler event multisets of the
+   canonical order) is what every schedule gives *)
+Theorem schedule_independent :
+  forall w is_stream g ginf opts stages t,
+    NoDup (g :: stages_uids stages) ->
+    traces (graph_prog is_stream g ginf opts stages) t ->
+    forall u, filter (of_unit u) (st_log (run_script true w t)) =
+              filter (of_unit u) (st_log (run_script true w (graph_ops is_stream g ginf opts stages))).
+Proof. exact engine_schedule_independent. Qed.
+Print Assumptions schedule_independent.
+
+(* Non-vacuity: a nested graph in transform mode — a Stream-only lambda (unit 1), a sub graph
+   (unit 2) holding a Transform lambda (3) and a failing Invoke lambda (4) in parallel and a
+   second stage (5) that never runs, a passthrough (6), a second outer stage (7) that never
+   runs; handlers for the whole graph, designated to nodes, to the sub graph and to node
+   paths inside it; one global handler; under the round-robin schedule. *)
+Definition ex_opts : list copt :=
+  [([1], []); ([2], [[1]]); ([3], [[2]]); ([4], [[2; 1]]); ([5], [[2; 2]]); ([6], [[3]])].
+Definition ex_stages : list (list gnode) :=
+  [[GLambda 1 1 1 2 false;
+    GSub 2 2 2 [[GLambda 3 1 3 8 false; GLambda 4 2 4 1 true]; [GLambda 5 3 5 1 false]];
+    GPass 6 3];
+   [GLambda 7 4 7 1 false]].
+Definition ex_sched : list op := flatten_alt (graph_prog true 0 0 ex_opts ex_stages).
+
+Example exactly_once_paired_nonvacuous :
+  NoDup (0 :: stages_uids ex_stages) /\
+  traces (graph_prog true 0 0 ex_opts ex_stages) ex_sched /\
+  ex_sched <> graph_ops true 0 0 ex_opts ex_stages /\
+  map (fun e => (ue_unit e, ue_list e, ue_timings e)) (graph_table true 0 0 ex_opts ex_stages) =
+    [(0, [1], [TStartStream; TError]); (1, [1; 2], [TStart; TEndStream]);
+     (2, [1; 3], [TStartStream; TError]); (3, [1; 3; 4], [TStartStream; TEndStream]);
+     (4, [1; 3; 5], [TStart; TError]); (6, [1; 6], [])] /\
+  filter (of_unit 4) (st_log (run_script true (w_plain [9]) ex_sched)) =
+    [Ev 4 9 TStart 4; Ev 4 5 TStart 4; Ev 4 3 TStart 4; Ev 4 1 TStart 4;
+     Ev 4 1 TError 4; Ev 4 3 TError 4; Ev 4 5 TError 4; Ev 4 9 TError 4] /\
+  st_bad (run_script true (w_plain [9]) ex_sched) = false.
+Proof.
+  split.
+  - vm_compute. repeat (constructor; [simpl; intuition discriminate|]). constructor.
+  - split; [apply traces_flatten_alt|].
+    split; [vm_compute; discriminate|].
+    split; [vm_compute; reflexivity|]. split; vm_compute; reflexivity.
+Qed.
+
+(* The code as it was, on the graph of F-C10 (three separate WithCallbacks options for the
+   whole graph: the graph's list has length 3 and capacity 4; handler 4 designated to node 1,
+   handler 5 to node 2, both in one stage): in the schedule in which both nodes are created
+   before either starts, node 1 is served handler 5 and never handler 4.  (In the canonical
+   order node 1 has finished before node 2 is created and nothing shows: the quantification
+   over schedules is what the theorem above is about.) *)
+Definition fc10_opts : list copt := [([1], []); ([2], []); ([3], []); ([4], [[1]]); ([5], [[2]])].
+Definition fc10_stages : list (list gnode) := [[GLambda 1 1 1 1 false; GLambda 2 2 2 1 false]].
+
+Theorem exactly_once_paired_v0_refuted :
+  exists w is_stream g ginf opts stages t e,
+    NoDup (g :: stages_uids stages) /\
+    traces (graph_prog is_stream g ginf opts stages) t /\
+    In e (graph_table is_stream g ginf opts stages) /\
+    ue_list e = [1; 2; 3; 4] /\
+    filter (of_unit (ue_unit e)) (st_log (run_script false w t)) =
+      [Ev 1 5 TStart 1; Ev 1 3 TStart 1; Ev 1 2 TStart 1; Ev 1 1 TStart 1;
+       Ev 1 1 TEnd 1; Ev 1 2 TEnd 1; Ev 1 3 TEnd 1; Ev 1 5 TEnd 1] /\
+    filter (of_unit (ue_unit e)) (st_log (run_script false w t)) <> uexp_events w e /\
+    (* while the canonical order hides it *)
+    filter (of_unit (ue_unit e)) (st_log (run_script false w (graph_ops is_stream g ginf opts stages)))
+      = uexp_events w e.
+Proof.
+  exists (w_plain []), false, 0, 0, fc10_opts, fc10_stages,
+         (flatten_alt (graph_prog false 0 0 fc10_opts fc10_stages)),
+         {| ue_unit := 1; ue_info := 1; ue_list := [1; 2; 3; 4]; ue_timings := [TStart; TEnd] |}.
+  split; [vm_compute; repeat (constructor; [simpl; intuition discriminate|]); constructor|].
+  split; [apply traces_flatten_alt|].
+  split; [vm_compute; tauto|].
+  split; [reflexivity|].
+  split; [vm_compute; reflexivity|].
+  split; [vm_compute; discriminate | vm_compute; reflexivity].
+Qed.
+Print Assumptions exactly_once_paired_v0_refuted.
+
+(* ------------------------------------------------------------------ stream_payload_independent *)
+
+(* One stream payload handed to n handlers and to the flow (OnWithStreamHandle: cpy(n+1)):
+   what the reader of copy i receives is a function of the original stream and of that
+   reader's own recv / close actions — whatever the other readers do (read everything, read
+   a little, close at once, never read), in whatever order. *)
+Theorem stream_payload_independent :
+  forall (src : list N) (n i : nat) (acts : list cact),
+    (i < n)%nat -> received (copy_n src n) i acts = view src (Some 0%nat) i acts.
+Proof. exact stream_copies_independent. Qed.
+Print Assumptions stream_payload_independent.
+
+Theorem stream_payload_same_own_actions :
+  forall (src : list N) (n i : nat) (acts1 acts2 : list cact),
+    (i < n)%nat -> filter (own i) acts1 = filter (own i) acts2 ->
+    received (copy_n src n) i acts1 = received (copy_n src n) i acts2.
+Proof. exact stream_copies_same_own. Qed.
+Print Assumptions stream_payload_same_own_actions.
+
+Example stream_payload_independent_nonvacuous :
+  (* two handlers and the flow (copy 2): handler 0 closes at once, handler 1 reads one chunk
+     and closes, the flow reads everything, interleaved *)
+  received (copy_n [10; 20; 30] 3) 2
+    [CRecv 2; CClose 0; CRecv 1; CRecv 2; CClose 1; CRecv 2; CRecv 2] = [10; 20; 30] /\
+  received (copy_n [10; 20; 30] 3) 1
+    [CRecv 2; CClose 0; CRecv 1; CRecv 2; CClose 1; CRecv 2; CRecv 2] = [10].
+Proof. vm_compute. split; reflexivity. Qed.
